@@ -9,23 +9,31 @@ META = {
                  "clauses, vm_compute over stated finite ranges for parity/BK; vm_compute correspondence against "
                  "pennylane.fermi on generated Fermi words/sentences",
     "design_ref": "DESIGN.md §3 C53",
-    "text": "Props/C53.v: for Jordan-Wigner and EVERY register size/mode index the canonical anticommutation relations "
-            "hold as identities of coefficient functions (jw_car), the sentence map is linear (sums, scalars), the image "
-            "of a word is the ordered product of the ladder images, word products reverse under the adjoint at the "
-            "Pauli-word level; for parity and Bravyi-Kitaev CAR, adjoint and product statements are checked by "
-            "vm_compute for all n <= 6 (bound in the statement).  The model is executed inside Coq on the same random "
-            "Fermi words/sentences (<= 6 modes, dyadic coefficients, incl. out-of-range modes) as the real "
-            "qp.fermi functions and the exact term lists are compared; in addition the property itself is evaluated "
-            "on the implementation (CAR exactly and by matrices, homomorphism, adjoint, linearity, shift_operator "
-            "normal-ordering steps, wire_map/tol invariance, equal spectra of the three mappings).",
+    "text": "Props/C53.v (15 kernel-checked theorems, no axioms). For Jordan-Wigner and EVERY register size n and modes p,q<n the "
+            "canonical anticommutation relations {a_p^s,a_q^t} = delta_pq [s!=t] 1 hold as equality of coefficient functions "
+            "(jw_car; via the single non-commuting overlap site, jw_strings_anticommute, and the word-level (AB)^+=B^+A^+, "
+            "pauli_word_product_adjoint). For all three mappings and every n: sums to sums and scalars to scalars "
+            "(map_is_linear_add/_scale), image of a word = ordered product of the ladder images "
+            "(map_product_is_product_of_images, map_of_concatenation), image of a_p^+ = adjoint of image of a_p "
+            "(adjoint_preserved_generators). Bounded, bound in the statement, decided by vm_compute through a proved-sound "
+            "comparison (sentence_comparison_sound): CAR for JW/parity/Bravyi-Kitaev for all n<=6 (car_all_mappings_partial), "
+            "adjoint of words (n<=5, length<=3), product homomorphism as sentences (n<=4, |u|,|v|<=2), and unitary "
+            "equivalence on generators: an explicit CNOT network conjugates JW ladder images into parity and "
+            "Bravyi-Kitaev images for all n<=6, each CNOT unitary. Tie: the model is executed inside Coq on the same "
+            "random Fermi words/sentences (<=6 modes, dyadic real/complex coefficients, too-small registers included) as the "
+            "real qp.fermi.jordan_wigner/parity_transform/bravyi_kitaev (ps=True) and exact term lists are compared; "
+            "FermiWord product/adjoint are tied too. Direct oracles on the implementation: CAR (exact PauliSentence "
+            "algebra for n<=6, matrices for n<=4), map(u*v)=map(u)@map(v), adjoint, linearity, image unchanged by "
+            "FermiWord.shift_operator (anticommutation rewriting = normal-ordering steps), wire_map/tol invariance, "
+            "equal eigenvalue multisets of H=S+S^+ under the three mappings (n<=4).",
     "note": "Trusted: the hand transcription coq/Disc/FermiModel.v, tied to /repo only by the correspondence run. "
-            "General (all n) proofs exist only for Jordan-Wigner; parity/Bravyi-Kitaev and the word-level adjoint / "
-            "concatenation homomorphism are bounded (n <= 6, word length <= 2..3) and named _partial. Unitary "
-            "equivalence of the three mappings and invariance under normal ordering are NOT proved: they are only "
-            "checked numerically/exactly on the implementation (equal eigenvalue multisets for n <= 4; image "
-            "unchanged by FermiWord.shift_operator). This checkout has no normal_order function; shift_operator is "
-            "the only anticommutation-rewriting utility. tol is exercised only with values far below the dyadic "
-            "coefficients; ps=False (Operator output) is not covered.",
+            "Not proved: parity/Bravyi-Kitaev CAR for n>6 (update/parity/flip sets follow the binary-tree shape); adjoint "
+            "and sentence-level product homomorphism for arbitrary words (needs associativity of the sentence product, "
+            "not formalised; only the fold characterisation is general); unitary equivalence beyond generators and n<=6; "
+            "invariance under normal ordering (this checkout has no normal_order function; only checked on the "
+            "implementation through shift_operator). tol is exercised only with 1e-8, far below the dyadic coefficients, "
+            "so it never changes a value; ps=False (Operator output) is not covered. FermiSentence addition is modelled "
+            "as term-list concatenation (equal keys merged by the accumulation).",
     "assumptions": ["coefficients are dyadic rationals so that float arithmetic in PauliSentence is exact",
                     "Jordan-Wigner model pads words to 1 + the largest orbital of the input (the code has no register size)"],
     "trusted": ["hand-written model coq/Disc/FermiModel.v tied to /repo by correspondence only",
@@ -112,8 +120,8 @@ def run(ctx):
     ctx.coq_props()
     rng = ctx.rng
     quick = ctx.tier == "quick"
-    n_map = 700 if quick else 6000
-    n_orc = 260 if quick else 2500
+    n_map = 1000 if quick else 8000
+    n_orc = 300 if quick else 3000
     cases = [  # corpus first
         {"kind": "map", "m": "JW", "n": 0, "w": [[0, 1], [1, 0]]},
         {"kind": "map", "m": "PT", "n": 6, "w": [[0, 1], [1, 0]]},
